@@ -3,6 +3,7 @@
 package props
 
 import (
+	"context"
 	"fmt"
 	"math"
 	"regexp"
@@ -373,6 +374,63 @@ func runC02(r *vk.Run) {
 			c.Sample("select", map[string]any{"query": query, "mode": mode, "containers": len(inv), "opened": got})
 		}
 	})
+	// several different selectors through one Querier: both sides of a binary operation, then a second
+	// query on the same engine
+	r.Phase("multisel", r.N(4000, 300000), func(c *vk.Case) {
+		rng := c.Rng
+		inv := genInventory(rng, 8)
+		msA, msB, msC := genSelector(rng, inv), genSelector(rng, inv), genSelector(rng, inv)
+		wa, ok1 := expectedSelection(inv, msA)
+		wb, ok2 := expectedSelection(inv, msB)
+		wc, ok3 := expectedSelection(inv, msC)
+		if !ok1 || !ok2 || !ok3 {
+			c.Count("excluded_collision", 1)
+			return
+		}
+		fd := newFakeDocker(inv)
+		eng := newEngine(dockerQuerier(fd))
+		q1 := fmt.Sprintf("count_over_time(%s[30s]) %s count_over_time(%s[30s])", renderSelector(msA), vk.Pick(rng, []string{"or", "+", "unless", "and"}), renderSelector(msB))
+		p := EvalP{Start: int64(1700000100) * 1e9, End: int64(1700000160) * 1e9, Step: 20 * time.Second, Limit: -1}
+		_, err := eng.Eval(context.Background(), q1, p.params())
+		c.Eval(1)
+		detail := map[string]any{"inventory": inv, "first_query": q1, "want_left": wa, "want_right": wb}
+		if err != nil {
+			c.Fail("", fmt.Sprintf("query %s failed: %v", q1, err), detail)
+			return
+		}
+		want := append(append([]string{}, wa...), wb...)
+		sort.Strings(want)
+		got := fd.OpenedIDs()
+		detail["opened_ids"] = got
+		if fmt.Sprint(got) != fmt.Sprint(want) && !(len(got) == 0 && len(want) == 0) {
+			c.Fail("", fmt.Sprintf("binary query over two selections opened %v, expected %v (left %v + right %v): %s", got, want, wa, wb, q1), detail)
+			return
+		}
+		// a further query on the same engine / querier
+		q2 := renderSelector(msC)
+		fd.mu.Lock()
+		fd.Calls = nil
+		fd.mu.Unlock()
+		_, err = eng.Eval(context.Background(), q2, p.params())
+		c.Eval(1)
+		got = fd.OpenedIDs()
+		detail["second_query"], detail["want_second"], detail["opened_second"] = q2, wc, got
+		if err != nil {
+			c.Fail("", fmt.Sprintf("second query %s failed: %v", q2, err), detail)
+			return
+		}
+		if fmt.Sprint(got) != fmt.Sprint(wc) && !(len(got) == 0 && len(wc) == 0) {
+			c.Fail("", fmt.Sprintf("second query on the same engine: selector %s opened %v, expected %v (after %s)", q2, got, wc, q1), detail)
+			return
+		}
+		c.Count("multi_selector_runs", 1)
+		if len(wa) > 0 && len(wb) > 0 && fmt.Sprint(wa) != fmt.Sprint(wb) {
+			c.Nontrivial("multisel" + q1 + fmt.Sprint(c.Idx))
+			c.Count("multi_selector_distinct_sides", 1)
+		}
+	})
+	r.Require("multi_selector_distinct_sides", 100)
+
 	// end to end: the built plugin binary against a fake daemon on a unix socket
 	r.Phase("e2e", r.N(25, 2500), func(c *vk.Case) {
 		rng := c.Rng
